@@ -24,7 +24,10 @@ class plan_state:
         self.rev_blockers = {}
         self.blockers_refcnt = RefCountingSet()
         self.match_atom = self.state.find_atom_matches
-        self.vdb_filter = set()
+        # refcounted: a package can be displaced (remove/replace), restored by a
+        # rollback and displaced again; undoing the later displacement must not
+        # drop the exclusion recorded by the earlier one.
+        self.vdb_filter = RefCountingSet()
         self.forced_restrictions = RefCountingSet()
 
     def add_blocker(self, choices, blocker, key=None):
